@@ -10,6 +10,8 @@ import (
 	"sort"
 	"strconv"
 	"strings"
+
+	vcorpus "verif/corpus"
 )
 
 // prog is one corpus program (its text is the BASE layout).
@@ -365,5 +367,12 @@ func corpus() ([]prog, error) {
 	all = append(all, fileSources("std", "std")...)
 	all = append(all, generated()...)
 	all = append(all, rejected()...)
+	// shared corpora (package corpus): the sole-facility programs and one program that executes every statement
+	// of the cross-feature alphabet
+	for _, p := range vcorpus.Tiny() {
+		all = append(all, prog{name: "tiny:" + p.Name, origin: "generated", src: p.Src})
+	}
+	ca := vcorpus.CrossAll()
+	all = append(all, prog{name: ca.Name, origin: "shared-corpus", src: ca.Src})
 	return all, nil
 }
